@@ -150,6 +150,10 @@ func (dir *Local) getRelPath(path string) string {
 	// Make sure to handle a root directory with a trailing path separator
 	sep := string(os.PathSeparator)
 	root := strings.TrimRight(dir.Root, sep)
+	if path == root {
+		// The root itself (Root is normally stored without a trailing separator)
+		return ""
+	}
 	return strings.Replace(path, root+sep, "", 1)
 }
 
